@@ -496,6 +496,26 @@ func checkMain(args []string) int {
 			}
 		}
 	}
+	if flt := os.Getenv("GOSYM_JOBFILTER"); flt != "" {
+		var kept []Job
+		for _, j := range jobs {
+			ok := true
+			for _, kv := range strings.Split(flt, ",") {
+				p := strings.SplitN(kv, "=", 2)
+				if len(p) != 2 {
+					continue
+				}
+				want, _ := strconv.Atoi(p[1])
+				if v, has := j.Params[p[0]]; has && v != want {
+					ok = false
+				}
+			}
+			if ok {
+				kept = append(kept, j)
+			}
+		}
+		jobs = kept
+	}
 	// seed only permutes the order in which instances are sharded
 	if seed != 0 {
 		r := uint64(seed)*6364136223846793005 + 1442695040888963407
